@@ -248,6 +248,13 @@ func diff(v0, v1 any, one bool, ignores ...Path) (diffs []Path) {
 				}
 			}
 		}
+	case gen.Int:
+		// A gen number is compared by value just like the members of a
+		// gen.Array or gen.Object are after Simplify(), 3 and 3.0 are the
+		// same number at the top level as well.
+		return diff(int64(t0), v1, one, ignores...)
+	case gen.Float:
+		return diff(float64(t0), v1, one, ignores...)
 	default:
 		vt0 := (*[2]uintptr)(unsafe.Pointer(&v0))[0]
 		vt1 := (*[2]uintptr)(unsafe.Pointer(&v1))[0]
